@@ -307,4 +307,63 @@ theorem empty_loop_run (o : Opts) {path : Path} {put : Container → Cif} {code 
       exact empty_loop_step o hv ns ty tx ts s1 f w1 fs _ isBlock hc hns hwf hfresh hnd hf hterm hnn hF1)
     hfuel (fun _ => ⟨_, _, _, rfl, rfl⟩) hrest hF
 
+
+/-! ### data before the first block header: parsed into an anonymous block -/
+
+theorem elemToks_head_ty (e : Elem) : ∃ ty tx ts, elemToks e = (ty, tx) :: ts ∧ (ty = .name ∨ ty = .loopKw ∨ ty = .frameHead) := by
+  cases e with
+  | plain i =>
+    cases i with
+    | item n v => exact ⟨_, _, _, rfl, Or.inl rfl⟩
+    | loop ns ps => exact ⟨_, _, _, rfl, Or.inr (Or.inl rfl)⟩
+  | frame c b => exact ⟨_, _, _, rfl, Or.inr (Or.inr rfl)⟩
+
+/-- elements `e :: es` that stand where a block header is expected (at the start of the input, or behind a complete block whose
+    content they cannot belong to): CIF_NO_BLOCK_HEADER, and they are parsed into a data block with the empty code -/
+theorem no_block_header_step (o : Opts) (hstore : o.store = true) (hmfd : o.maxFrameDepth ≠ 0) (e : Elem) (es : List Elem)
+    (rest : List TokSpec) (s : PS) (fuel : Nat) (w : W)
+    (hnew : ∀ c ∈ w.cif, codeIs o.norm (o.norm []) c = false) (hwb : wfElems o (e :: es) [] [] = true)
+    (hfuel : szElems (e :: es) + (e :: es).length + 3 ≤ fuel) (hrest : blockFollow rest)
+    (hF : Feeds o s (elemsToks (e :: es) ++ rest)) :
+    ∃ s' r, blocksLoop o (fuel + 1) s acceptAll w
+        = blocksLoop o fuel s' acceptAll { log := r :: w.log, cif := w.cif ++ [denoteBlock o.dia o.normKey { code := [], body := e :: es }] }
+      ∧ r.code = CIF_NO_BLOCK_HEADER ∧ Feeds o s' rest := by
+  obtain ⟨ty, tx, ts, hhead, hty0⟩ := elemToks_head_ty e
+  have hF' := hF
+  simp only [elemsToks, List.append_assoc] at hF'
+  rw [hhead, List.cons_append] at hF'
+  obtain ⟨t, s1, hty, htx, hn, ht, hr⟩ := hF'.inv
+  have hpend : Feeds o s1 (elemsToks (e :: es) ++ rest) := by
+    simp only [elemsToks, List.append_assoc]
+    rw [hhead, List.cons_append, ← hty, ← htx]; exact Feeds.pending ht hr
+  obtain ⟨X, hX⟩ : ∃ X, fuel = X + 1 := ⟨fuel - 1, by omega⟩
+  obtain ⟨g, hg⟩ : ∃ g, X = (g + 1) + (e :: es).length := ⟨X - (e :: es).length - 1, by omega⟩
+  obtain ⟨r0, hr0⟩ : ∃ r0 : Report, r0 = ⟨CIF_NO_BLOCK_HEADER, s1.scan.line, s1.scan.col - t.text.length⟩ := ⟨_, rfl⟩
+  obtain ⟨s2, h1, h2⟩ := elems_structure o w.cif [] hnew hmfd (e :: es) [] [] rest s1 (g + 1) acceptAll
+    { log := r0 :: w.log, cif := w.cif ++ [.mk [] [] []] } [] [] rfl hwb (by intro k hk; simp [normNames] at hk) (by intro c hc; cases hc)
+    (by omega) (blockFollow_term hrest) hpend
+  rw [← hg] at h1
+  obtain ⟨ty3, tx3, ts3, rfl, hfol⟩ := hrest
+  obtain ⟨t3, s3, hty3, htx3, hn3, ht3, hr3⟩ := h2.inv
+  refine ⟨s3, r0, ?_, by rw [hr0], by rw [← hty3, ← htx3]; exact Feeds.pending ht3 hr3⟩
+  have hpacked : allPacked (denoteElems o.dia o.normKey (e :: es) [] []).2 :=
+    allPacked_denoteElems o (e :: es) [] [] [] [] hwb (by intro l hl; cases hl)
+  have hv := View.block o w.cif [] hnew
+  have hany : w.cif.any (codeIs o.norm (o.norm [])) = false := by
+    rw [List.any_eq_false]; intro c hc; simp [hnew c hc]
+  have hpark : nextTok o s1 acceptAll { log := r0 :: w.log, cif := w.cif ++ [.mk [] [] []] } = .ok (t, s1) _ :=
+    nextTok_pending o s1 t ht _ _
+  conv => lhs; rw [blocksLoop]
+  have hbody : parseContainer o fuel s1 (some [o.norm []]) true acceptAll { log := r0 :: w.log, cif := w.cif ++ [.mk [] [] []] }
+      = .ok s3 { log := r0 :: w.log, cif := w.cif ++ [denoteBlock o.dia o.normKey { code := [], body := e :: es }] } := by
+    rw [hX, parseContainer]
+    simp only [bind_eq, pure_eq, P.bind, P.pure, h1]
+    rw [elemsLoop]
+    rcases hfol with h | h <;>
+      simp only [bind_eq, pure_eq, P.bind, P.pure, hn3, hty3, h, if_true, getCif, setCif, hv.upd, pruneC_packed _ _ _ hpacked,
+        denoteBlock]
+  rcases hty0 with h | h | h <;>
+    simp only [bind_eq, pure_eq, P.bind, P.pure, hn, hty, h, report_accept, hstore, if_true, getCif, setCif, hany,
+      Bool.false_eq_true, if_false, ← hr0, hbody]
+
 end CifModel.Model.Parser
